@@ -24,6 +24,8 @@ DEP_STATUS = ['OPEN', 'MERGED', 'DECLINED']
 DEPS = ['5', '6', '99', 'abc', None]          # None: no such comment
 # spellings of a comment addressed to the robot (the grammar of C07): every one
 # of them must hold the pull request back
+# robot account names (a GitHub App login carries brackets)
+ROBOTS = ['robot', 'bert-e[bot]', 'ci+robot']
 SPELL = ['@robot %s', '/%s', '@robot: %s', '  @robot %s', '\n/%s', '\t@robot %s  \n', '@robot   %s',
          '@robot %s\n']
 
@@ -73,19 +75,22 @@ def build(vals, sym, src='bugfix/PROJ-1-x', dst='development/4.3'):
         def __init__(self, author, text):
             self.author, self.text = author, text
 
+    rb = ctx.concretize_int(vals['robot_i'], 0, len(ROBOTS) - 1) if sym else vals.get('robot_i', 0)
+    robot = ROBOTS[rb]
     if D(vals['greeted']):
-        comments.append(Comment('robot', 'Hello'))
+        comments.append(Comment(robot, 'Hello'))
     spw = ctx.concretize_int(vals['sp_wait'], 0, len(SPELL) - 1) if sym else vals['sp_wait']
     spd = spw          # one spelling per comment list (64 combinations would only multiply paths)
     if D(vals['wait']):
-        comments.append(Comment('contributor', SPELL[spw] % 'wait'))
+        comments.append(Comment('contributor', (SPELL[spw] % 'wait').replace('@robot', '@' + robot)))
     chosen = []
     for k in range(2):
         i = ctx.concretize_int(vals['dep%d' % k], 0, len(DEPS) - 1) if sym else vals['dep%d' % k]
         d = DEPS[i]
         chosen.append(d)
         if d is not None:
-            comments.append(Comment('contributor', SPELL[spd] % ('after_pull_request=%s' % d)))
+            comments.append(Comment('contributor', (SPELL[spd] % ('after_pull_request=%s' % d)).replace(
+                '@robot', '@' + robot)))
 
     class PRObj(common.HostNames):
         id = 1
@@ -102,7 +107,7 @@ def build(vals, sym, src='bugfix/PROJ-1-x', dst='development/4.3'):
 
         def add_comment(self, msg):
             writes.append(('comment', msg))
-            self.comments.append(Comment('robot', msg))
+            self.comments.append(Comment(robot, msg))
 
         def set_bot_status(self, *a, **k):
             writes.append(('bot_status',))
@@ -141,7 +146,7 @@ def build(vals, sym, src='bugfix/PROJ-1-x', dst='development/4.3'):
 
     host = Host()
     repo = HoldRepo({'development/4.3', 'development/5.1'})
-    berte = GF.make_berte(repo, host)
+    berte = GF.make_berte(repo, host, robot=robot)
     job = PullRequestJob(bert_e=berte, pull_request=PRObj())
     return job, writes, chosen
 
@@ -168,7 +173,7 @@ def variables():
     v = dict(status=z3.Int('status'), st5=z3.Int('st5'), st6=z3.Int('st6'),
              dep0=z3.Int('dep0'), dep1=z3.Int('dep1'),
              wait=z3.Bool('wait'), greeted=z3.Bool('greeted'),
-             sp_wait=z3.Int('sp_wait'))
+             sp_wait=z3.Int('sp_wait'), robot_i=z3.Int('robot_i'))
     return v
 
 
@@ -176,7 +181,9 @@ def pre(v):
     return z3.And(v['status'] >= 0, v['status'] < 4, v['st5'] >= 0, v['st5'] < 3,
                   v['st6'] >= 0, v['st6'] < 3, v['dep0'] >= 0, v['dep0'] < len(DEPS),
                   v['dep1'] >= 0, v['dep1'] < len(DEPS),
-                  v['sp_wait'] >= 0, v['sp_wait'] < len(SPELL),
+                  v['sp_wait'] >= 0, v['sp_wait'] < len(SPELL), v['robot_i'] >= 0, v['robot_i'] < len(ROBOTS),
+                  # (an unusual robot name is combined with the canonical spellings only)
+                  z3.Implies(v['robot_i'] != 0, v['sp_wait'] <= 2),
                   # the spelling only matters when a hold comment exists
                   z3.Implies(z3.And(z3.Not(v['wait']), v['dep0'] == len(DEPS) - 1, v['dep1'] == len(DEPS) - 1),
                              v['sp_wait'] == 0))
@@ -353,7 +360,7 @@ def check(rep):
         'reactor.Reactor.init_settings/handle_options/handle_commands',
         'commands.after_pull_request, option `wait`', 'pr_utils.notify_user/find_comment/_send_comment',
         'branches.is_cascade_producer/is_cascade_consumer/branch_factory']
-    rep.bounds = dict(spellings=SPELL, dependencies='0..2 after_pull_request comments over {open/merged/declined id, '
+    rep.bounds = dict(robot_names=ROBOTS, spellings=SPELL, dependencies='0..2 after_pull_request comments over {open/merged/declined id, '
                                    'unknown id, non-numeric}', pr_status=PR_STATUS)
     rep.outside_claim += ['positions of the hold inside histories other than the ones listed under bounds.histories',
                           'what happens after clone_git_repo (other properties)',
